@@ -56,7 +56,7 @@ def schedules(chk, q):
             rng = random.Random("%d/%s/%d" % (chk.seed, cfg, bi))
             sc, info = corerig.project_tunnel(beh, rng, sessions=sessions, name="c01-%s-%d" % (cfg[:-4], bi), big=0.04 if q else 0.06)
             sc["origin"] = {"module": "Tunnel_Gen", "config": cfg, "seed": chk.seed * 100,
-                            "steps": [[a, b] for a, b in beh if a in ("Pop", "PopSkip", "MarkClosed", "WriteId", "WriteIdFailsMarked", "WriteIdFailsUnmarked", "Cut", "G_Cut", "Freeze", "AnswerLost", "StaleClose", "SrvDetach")]}
+                            "steps": [[a, b] for a, b in beh if a in ("Pop", "PopSkip", "MarkClosed", "WriteId", "WriteIdFailsMarked", "WriteIdFailsUnmarked", "Cut", "G_Cut", "Freeze", "AnswerLost", "StaleClose", "SrvDetach", "ReaderStalls", "ReaderResumes")]}
             out.append(sc)
             infos.append(info)
     # all maximal paths of the smallest configuration, one schedule per distinct projection
@@ -121,7 +121,7 @@ def run(chk, args):
     kinds = set().union(*[i["kinds"] for i in infos])
     chk.note("%d fault schedules from Tunnel_Gen (%d planned faults, %d carriers; kinds %s)" % (
         len(scs), sum(i["faults"] for i in infos), sum(i["carriers"] for i in infos), sorted(kinds)))
-    need = {"answerlost", "freeze", "cut-before-token", "cut-bnd", "cut-body", "cut-pfx", "halfopen", "noproxy", "bulk-outage"}
+    need = {"answerlost", "freeze", "cut-before-token", "cut-bnd", "cut-body", "cut-pfx", "halfopen", "noproxy", "bulk-outage", "reader-stall"}
     if not need <= kinds:
         chk.fail("vacuous: fault kinds never generated: %s" % sorted(need - kinds))
     results, summary, out, races = corerig.run_rig(rigbin, scs, par=64, bound_ms=BOUND_MS, timeout=1500)
